@@ -356,7 +356,7 @@ impl Driver for C07 {
                 ("true-extreme-checked", 300 * s),
                 ("propagation-stopped-at-limit", 500 * s),
                 ("analysis-detected-infeasible", 200 * s),
-                ("inexact-integer-bound:tight-point-feasible", 300 * s),
+                ("inexact-integer-bound:tight-point-feasible", 100 * s),
             ],
             min_nontrivial: 1000 * s,
         }
